@@ -1059,6 +1059,39 @@ func initAttrFromDesign(att, patt *AttributeExpr) {
 	}
 	if att.Validation == nil {
 		att.Validation = patt.Validation
+	} else if pv := patt.Validation; pv != nil && pv != att.Validation {
+		// att defines validations of its own: they apply together with the
+		// ones of patt, att wins where both define the same rule.
+		v := att.Validation.Dup()
+		if v.Values == nil {
+			v.Values = pv.Values
+		}
+		if v.Format == "" {
+			v.Format = pv.Format
+		}
+		if v.Pattern == "" {
+			v.Pattern = pv.Pattern
+		}
+		if v.ExclusiveMinimum == nil {
+			v.ExclusiveMinimum = pv.ExclusiveMinimum
+		}
+		if v.Minimum == nil {
+			v.Minimum = pv.Minimum
+		}
+		if v.ExclusiveMaximum == nil {
+			v.ExclusiveMaximum = pv.ExclusiveMaximum
+		}
+		if v.Maximum == nil {
+			v.Maximum = pv.Maximum
+		}
+		if v.MinLength == nil {
+			v.MinLength = pv.MinLength
+		}
+		if v.MaxLength == nil {
+			v.MaxLength = pv.MaxLength
+		}
+		v.AddRequired(pv.Required...)
+		att.Validation = v
 	}
 	if att.DefaultValue == nil {
 		att.DefaultValue = patt.DefaultValue
